@@ -12,8 +12,10 @@
    (oldest-first export), 85b1827 (prepare_new_auth) and cd32c02 (check_placed).  No proofs here. *)
 From DV Require Export Rights.
 
-Record unode := { un_id : uid; un_date : Z; un_author : key; un_key : key; un_enabled : bool }.
-Record rnode := { rn_id : uid; rn_date : Z; rn_author : key; rn_ent : entity; rn_self : bool; rn_all : bool }.
+(* un_date / rn_date is the row's mdate: the date the entry takes effect and at which its author must be
+   entitled; un_cdate / rn_cdate is the row's cdate, chosen by the signer as well, only compared by Node::eq *)
+Record unode := { un_id : uid; un_date : Z; un_author : key; un_key : key; un_enabled : bool; un_cdate : Z }.
+Record rnode := { rn_id : uid; rn_date : Z; rn_author : key; rn_ent : entity; rn_self : bool; rn_all : bool; rn_cdate : Z }.
 Record edge := { e_src : uid; e_label : N; e_dest : uid; e_date : Z; e_author : key }.
 Record anode := { an_id : uid; an_date : Z; an_author : key;
                   an_redges : list edge; an_rnodes : list rnode;
@@ -44,10 +46,11 @@ Definition perr_code (e : perr) : Z :=
 (* Node::eq on the modelled fields; Edge::eq (the signature is not compared) *)
 Definition unode_eqb (a b : unode) : bool :=
   N.eqb (un_id a) (un_id b) && Z.eqb (un_date a) (un_date b) && N.eqb (un_author a) (un_author b) &&
-  N.eqb (un_key a) (un_key b) && Bool.eqb (un_enabled a) (un_enabled b).
+  N.eqb (un_key a) (un_key b) && Bool.eqb (un_enabled a) (un_enabled b) && Z.eqb (un_cdate a) (un_cdate b).
 Definition rnode_eqb (a b : rnode) : bool :=
   N.eqb (rn_id a) (rn_id b) && Z.eqb (rn_date a) (rn_date b) && N.eqb (rn_author a) (rn_author b) &&
-  N.eqb (rn_ent a) (rn_ent b) && Bool.eqb (rn_self a) (rn_self b) && Bool.eqb (rn_all a) (rn_all b).
+  N.eqb (rn_ent a) (rn_ent b) && Bool.eqb (rn_self a) (rn_self b) && Bool.eqb (rn_all a) (rn_all b) &&
+  Z.eqb (rn_cdate a) (rn_cdate b).
 Definition edge_eqb (a b : edge) : bool :=
   N.eqb (e_src a) (e_src b) && N.eqb (e_label a) (e_label b) && N.eqb (e_dest a) (e_dest b) &&
   Z.eqb (e_date a) (e_date b) && N.eqb (e_author a) (e_author b).
